@@ -449,6 +449,21 @@ int main(int argc, char** argv){ vr::parse(argc, argv);
   NOT_REPRODUCED("draw_curve paints exactly the reflections inside the view"); }
 '''
 
+REPLAY_CIRC = r'''
+#include <boost/gil.hpp>
+#include <boost/gil/extension/rasterization/circle.hpp>
+#include <vector>
+#include <set>
+#include "vreplay.hpp"
+using namespace boost::gil;
+int main(int argc, char** argv){ vr::parse(argc, argv);
+  for (int r = 0; r <= 300; r++) { midpoint_circle_rasterizer m({5, -3}, r); std::ptrdiff_t pc = m.point_count(); std::vector<point_t> t((size_t)pc + 2, point_t{-77777, 0}); m(t.begin());
+    if (t[pc].x != -77777 || (pc && t[pc - 1].x == -77777)) REPRODUCED("midpoint circle radius %d does not write exactly point_count() = %td points", r, pc);
+    std::set<std::pair<long, long>> s; for (std::ptrdiff_t i = 0; i < pc; i++) { long x = t[i].x - 5, y = t[i].y + 3; s.insert({x, y}); if (std::labs(x) > r || std::labs(y) > r) REPRODUCED("midpoint circle radius %d: point (%ld,%ld) outside the bounding box", r, x, y); }
+    for (auto& p : s) if (!s.count({-p.first, p.second}) || !s.count({p.first, -p.second}) || !s.count({p.second, p.first})) REPRODUCED("midpoint circle radius %d: point set not 8-fold symmetric at (%ld,%ld)", r, p.first, p.second); }
+  NOT_REPRODUCED("midpoint circles of radius 0..300: count, bounding box and symmetry hold"); }
+'''
+
 UNITS = [
     Unit('line', 'C20', LINE_C, extracts=X_LINE, replay=REPLAY_LINE,
          checks=[Check('point_count', 'h_line_point_count', enforce='line_point_count'),
@@ -457,7 +472,7 @@ UNITS = [
                  Check('native_window', 'none', engine='N', native=NATIVE_LINE, timeout=1800)],
          preconditions=['line end points |coordinate| <= 10^6'],
          assumed=['output iterator = ghost emission monitor EMIT (count, first, last, running connectivity / bbox flags)']),
-    Unit('circle', 'C20', CIRC_C, extracts=X_CIRC,
+    Unit('circle', 'C20', CIRC_C, extracts=X_CIRC, replay=REPLAY_CIRC,
          insts=[('r4096', 'quick', {'RADIUS_MAX': '4096'})],
          probe_includes=['boost/gil.hpp', 'boost/gil/extension/rasterization/circle.hpp', 'cmath'],
          probe='P_VAL("COS_PI_4", std::cos(boost::gil::detail::pi / 4));',
